@@ -6,7 +6,7 @@
    model refuses (trace inclusion).  The global monitors transcribe C02/C03/C04 on the observed
    execution, without any model state. *)
 From Coq Require Import List NArith Arith Bool.
-From Charon Require Import Common.Quorum Qbft.Model Qbft.Monitor Qbft.Net.
+From Charon Require Import Common.Quorum Qbft.Model Qbft.Monitor Qbft.Inv Qbft.Net.
 Import ListNotations.
 
 Record case := mkcase {
@@ -120,7 +120,22 @@ Definition net_bad (c : case) : list (nat * nat) :=
     match nrun_first_reject (case_cfg c) net_init (c_trace c) 0 with Some k => [(c_id c, k)] | None => [] end
   else [].
 
+(* Deliverability alone (no model): every part of every delivered message was broadcast before, according to the
+   observed Broadcast callbacks, or has a Byzantine source.  Used to tell whether a REPLAYED event list is an execution
+   on the tree it is replayed against (an honest message of the recording may never be broadcast there). *)
+Fixpoint deliv_first_bad (c : cfg) (snt : list bmsg) (tr : list (nat * label)) (k : nat) : option nat :=
+  match tr with
+  | [] => None
+  | (i, l) :: r =>
+      if recv_ok c (mknet (fun _ => init) snt) l then deliv_first_bad c (snt ++ bc_mains (label_outs l)) r (S k) else Some k
+  end.
+Definition deliv_bad (c : case) : list (nat * nat) :=
+  if c_cluster c then
+    match deliv_first_bad (case_cfg c) [] (c_trace c) 0 with Some k => [(c_id c, k)] | None => [] end
+  else [].
+
 (* ---- whole case files ---- *)
+Definition all_deliv (cs : list case) : list (nat * nat) := flat_map deliv_bad cs.
 Definition all_net (cs : list case) : list (nat * nat) := flat_map net_bad cs.
 Definition all_mon3 (cs : list case) : list (nat * (nat * nat)) := flat_map mon3_bad cs.
 
